@@ -96,7 +96,40 @@ def handle (op : String) (a : Json) : Except String Json := do
         let tags := (rows.map (fun r => colourTag r.diff.colour ++ "/" ++ colourTag r.pct.colour)).eraseDups
         return ok (arr (rows.map rowJson)) tags
       | .error .typeError => return err "TypeError"
+      | .error .notFound => return err "NotFound"
     | _, _ => return err "OutOfDomain"
+  | "disk_row" =>
+    let plain ← getBool a "plain"
+    let inc := CompareRows.diskIncGood
+    let pa := CompareRows.diskPctAbs
+    let label ← getStr a "label"
+    match (← getVal (← a.getObjVal? "b")), (← getVal (← a.getObjVal? "c")) with
+    | some b, some c =>
+      let r := diskRow plain inc pa label b c
+      return ok (rowJson r) [String.ofList (humanUnit (pymin b c)).str]
+    | _, _ => return err "OutOfDomain"
+  | "human_unit" =>
+    match (← getVal (← a.getObjVal? "v")) with
+    | some v =>
+      let u := humanUnit v
+      return ok (arr [str u.str, valJson (u.fmt.apply v)]) [String.ofList u.str]
+    | none => return err "OutOfDomain"
+  | "compare_store" =>
+    let plain ← getBool a "plain"
+    let proc ← getBool a "proc"
+    let bid ← getStr a "bid"
+    let cid ← getStr a "cid"
+    let rs ← getArr a "races"
+    let mut store : List (Str × Stats) := []
+    for r in rs do
+      let id ← getStr r "id"
+      match (← getStats (← r.getObjVal? "stats")) with
+      | some st => store := (id, st) :: store
+      | none => return err "OutOfDomain"
+    match compareById CompareRows.blocks plain proc store.reverse bid cid with
+    | .ok rows => return ok (arr (rows.map rowJson))
+    | .error .typeError => return err "TypeError"
+    | .error .notFound => return err "NotFound"
   | "thr" =>
     return ok (arr [ratStr (thr 5), ratStr (thr 2)])
   | "strip" =>
